@@ -2,6 +2,22 @@
 import z3
 
 
+_z3_forall = z3.ForAll
+
+
+def _tolerant_forall(vs, body, weight=1, qid="", skid="", patterns=[], no_patterns=[]):
+    """z3.ForAll that falls back to automatic patterns when a supplied pattern is not admissible (e.g. contains an ite)"""
+    if patterns:
+        try:
+            return _z3_forall(vs, body, weight, qid, skid, patterns, no_patterns)
+        except z3.Z3Exception:
+            pass
+    return _z3_forall(vs, body, weight, qid, skid, [], no_patterns)
+
+
+z3.ForAll = _tolerant_forall
+
+
 class Unsupported(Exception):
     """Construct outside the verified subset: the affected obligations are *undecided*."""
 
